@@ -6,13 +6,15 @@
 #include "sim.hpp"
 #include "impl.hpp"
 #include "sched.hpp"
+#include "protect.hpp"
 #include <cstdarg>
 #include <csignal>
 #include <map>
 #include <set>
 #include <unistd.h>
 
-EvLog g_log;
+EvLog g_logs[SA_MAX_TASKS + 1];
+bool g_task_mode = false;
 Violation g_viol;
 RunCtx g_run;
 static std::map<std::string, uint64_t> g_stats;
@@ -168,7 +170,7 @@ extern "C" __attribute__((used, visibility("default"))) const char* __asan_defau
   return "exitcode=77:detect_leaks=0:allocator_may_return_null=1:handle_abort=0:handle_segv=1:abort_on_error=0:detect_stack_use_after_return=0:max_allocation_size_mb=512";
 }
 extern "C" __attribute__((used, visibility("default"))) const char* __ubsan_default_options() { return "exitcode=77:print_stacktrace=1:halt_on_error=1"; }
-extern "C" __attribute__((used, visibility("default"))) const char* __tsan_default_options() { return "exitcode=66:halt_on_error=1:report_signal_unsafe=0:history_size=4"; }
+extern "C" __attribute__((used, visibility("default"))) const char* __tsan_default_options() { return "exitcode=66:halt_on_error=1:report_signal_unsafe=0:history_size=4:ignore_interceptors_accesses=1:ignore_noninstrumented_modules=0"; }
 
 static void install_handlers() {
   if (__sanitizer_set_death_callback) __sanitizer_set_death_callback(on_sanitizer_death);
@@ -177,7 +179,7 @@ static void install_handlers() {
   struct sigaction sa; memset(&sa, 0, sizeof sa); sa.sa_handler = on_signal; sa.sa_flags = SA_ONSTACK | SA_NODEFER;
   sigaction(SIGABRT, &sa, nullptr); sigaction(SIGALRM, &sa, nullptr); sigaction(SIGFPE, &sa, nullptr);
 #if !defined(SIM_FLAVOUR_ASAN)
-  sigaction(SIGSEGV, &sa, nullptr); sigaction(SIGBUS, &sa, nullptr);
+  prot_install_handler(emit_inflight);
 #endif
 }
 
@@ -195,7 +197,7 @@ static J make_plan(const std::string& prop, uint64_t seed, uint64_t idx, const s
 }
 
 static void exec_plan(const J& plan) {
-  g_viol = Violation(); g_log.reset(); g_run.nontrivial = false; g_run.foreign_seen = false; g_run.sim_time = 0;
+  g_viol = Violation(); for (auto& l : g_logs) l.reset(); g_task_mode = false; g_run.nontrivial = false; g_run.foreign_seen = false; g_run.sim_time = 0; g_run.distinct_key = 0;
   g_run.prop = plan.gets("prop");
   const Workload* w = find_workload(plan.gets("w"));
   if (!w) { fprintf(stderr, "HARNESS: unknown workload '%s'\n", plan.gets("w").c_str()); exit(2); }
@@ -215,7 +217,7 @@ int main(int argc, char** argv) {
   setvbuf(stdout, nullptr, _IOLBF, 0);
   if (argc < 2) { fprintf(stderr, "usage: sim gen|run|replay|info ...\n"); return 2; }
   std::string cmd = argv[1];
-  g_log.trace = getenv("SIM_TRACE") != nullptr;
+  for (auto& l : g_logs) l.trace = getenv("SIM_TRACE") != nullptr;
   install_handlers();
   if (cmd == "info") {
     J o = J::obj(); o.set("max_stack", impl_max_stack()); o.set("growth", impl_growth()); o.set("sizeof_item", sizeof(cbor_item_t));
@@ -265,7 +267,7 @@ int main(int argc, char** argv) {
       if (g_run.nontrivial) {
         nontriv++;
         J p2 = plan; p2.set("seed", (uint64_t)0); p2.set("idx", (uint64_t)0);
-        hashes.push_back(hash_str(p2.dump()));
+        hashes.push_back(g_run.distinct_key ? g_run.distinct_key : hash_str(p2.dump()));
         if (samples.size() < want_samples) samples.push(plan);
       }
     }
